@@ -520,8 +520,84 @@ func (w *world) do(op map[string]J) (res map[string]J) {
 			res["name"] = kb.Name
 			res["version"] = kb.Version
 		}
+	case "binop":
+		l := scalarValue(op["l"])
+		r := scalarValue(op["r"])
+		var v reflect.Value
+		var err error
+		func() {
+			defer func() {
+				if rec := recover(); rec != nil {
+					res["err"] = "panic"
+				}
+			}()
+			switch get("o") {
+			case "*":
+				v, err = pkg.EvaluateMultiplication(l, r)
+			case "/":
+				v, err = pkg.EvaluateDivision(l, r)
+			case "%":
+				v, err = pkg.EvaluateModulo(l, r)
+			case "+":
+				v, err = pkg.EvaluateAddition(l, r)
+			case "-":
+				v, err = pkg.EvaluateSubtraction(l, r)
+			case "&":
+				v, err = pkg.EvaluateBitAnd(l, r)
+			case "|":
+				v, err = pkg.EvaluateBitOr(l, r)
+			case ">":
+				v, err = pkg.EvaluateGreaterThan(l, r)
+			case "<":
+				v, err = pkg.EvaluateLesserThan(l, r)
+			case ">=":
+				v, err = pkg.EvaluateGreaterThanEqual(l, r)
+			case "<=":
+				v, err = pkg.EvaluateLesserThanEqual(l, r)
+			case "==":
+				v, err = pkg.EvaluateEqual(l, r)
+			case "!=":
+				v, err = pkg.EvaluateNotEqual(l, r)
+			case "&&":
+				v, err = pkg.EvaluateLogicAnd(l, r)
+			case "||":
+				v, err = pkg.EvaluateLogicOr(l, r)
+			}
+			if err != nil {
+				res["err"] = "error"
+			} else {
+				res["v"] = dump(v, false)
+			}
+		}()
 	default:
 		res["error"] = "unknown op " + get("op")
 	}
 	return res
+}
+
+// scalarValue builds an operand: a typed leaf, possibly behind a pointer ("pscalar") or inside an interface
+// ("iscalar"); ["invalid"] is the zero reflect.Value, ["nilptr"] a nil *int64
+func scalarValue(t J) reflect.Value {
+	a := jarr(t)
+	switch jstr(a[0]) {
+	case "invalid":
+		return reflect.Value{}
+	case "nilptr":
+		var p *int64
+		return reflect.ValueOf(p)
+	case "pscalar":
+		inner := scalarValue(a[1])
+		p := reflect.New(inner.Type())
+		p.Elem().Set(inner)
+		return p
+	case "iscalar":
+		inner := scalarValue(a[1])
+		holder := reflect.New(typeReg["other"]).Elem()
+		holder.Set(inner)
+		return holder
+	}
+	ty := typeReg[jstr(a[0])]
+	v := reflect.New(ty).Elem()
+	build(v, t)
+	return v
 }
